@@ -298,9 +298,9 @@ Variable re_match : list N -> list N -> bool.
 Definition wf_entry (e : entry) : Prop := match e with EDomain ls => entry_ok ls | _ => True end.
 
 Lemma dm_match_add ls m n : entry_ok ls ->
-  dm_match (dm_add ls m) n = dm_match m n || entry_matches re_match n (EDomain ls).
+  dm_match (dm_add ls m) n = dm_match m n || dm_entry_matches re_match n (EDomain ls).
 Proof.
-  intros He. cbn [entry_matches]. destruct (scan n) as [nl| | |] eqn:E.
+  intros He. cbn [dm_entry_matches]. destruct (scan n) as [nl| | |] eqn:E.
   - rewrite !(dm_match_ok _ _ _ E), dm_add_sem by assumption. unfold suffixb.
     destruct ls; cbn [is_nil]; [|reflexivity]. cbn. reflexivity.
   - rewrite !dm_match_bad by (intros nl; congruence). rewrite dm_add_rootm by assumption. now destruct ls.
@@ -309,9 +309,9 @@ Proof.
 Qed.
 
 Lemma rx_match_cons x s n :
-  rx_match re_match (x :: s) n = rx_match re_match s n || entry_matches re_match n (ERegexp x).
+  rx_match re_match (x :: s) n = rx_match re_match s n || dm_entry_matches re_match n (ERegexp x).
 Proof.
-  cbn [entry_matches]. unfold rx_match. destruct (to_readable n) as [t| | |]; cbn.
+  cbn [dm_entry_matches]. unfold rx_match. destruct (to_readable n) as [t| | |]; cbn.
   - destruct s; cbn; [now rewrite orb_false_r|]. apply orb_comm.
   - destruct s; reflexivity.
   - destruct s; reflexivity.
@@ -319,9 +319,9 @@ Proof.
 Qed.
 
 Lemma rx_match_dup x s n : existsb (list_eqb x) s = true ->
-  rx_match re_match s n = rx_match re_match s n || entry_matches re_match n (ERegexp x).
+  rx_match re_match s n = rx_match re_match s n || dm_entry_matches re_match n (ERegexp x).
 Proof.
-  intros H. cbn [entry_matches]. destruct (to_readable n) as [t| | |] eqn:T; try now rewrite orb_false_r.
+  intros H. cbn [dm_entry_matches]. destruct (to_readable n) as [t| | |] eqn:T; try now rewrite orb_false_r.
   destruct (re_match x t) eqn:M; [|now rewrite orb_false_r].
   rewrite orb_true_r. unfold rx_match. rewrite T.
   apply existsb_exists in H. destruct H as [y [Hy Exy]]. apply leqb_eq in Exy. subst y.
@@ -329,18 +329,18 @@ Proof.
 Qed.
 
 Lemma mix_add_entry_sem e m n : wf_entry e ->
-  mix_match re_match (mix_add_entry e m) n = mix_match re_match m n || entry_matches re_match n e.
+  mix_match re_match (mix_add_entry e m) n = mix_match re_match m n || dm_entry_matches re_match n e.
 Proof.
   intros He. unfold mix_match. destruct e as [d|ls|x]; cbn [mix_add_entry mx_full mx_dom mx_re].
-  - change (fm_match (fm_add d (mx_full m)) n) with (list_eqb n d || fm_match (mx_full m) n). cbn [entry_matches].
+  - change (fm_match (fm_add d (mx_full m)) n) with (list_eqb n d || fm_match (mx_full m) n). cbn [dm_entry_matches].
     destruct (list_eqb n d), (fm_match (mx_full m) n), (dm_match (mx_dom m) n), (rx_match re_match (mx_re m) n); reflexivity.
   - rewrite (dm_match_add ls (mx_dom m) n He).
-    destruct (entry_matches re_match n (EDomain ls)), (fm_match (mx_full m) n), (dm_match (mx_dom m) n), (rx_match re_match (mx_re m) n); reflexivity.
+    destruct (dm_entry_matches re_match n (EDomain ls)), (fm_match (mx_full m) n), (dm_match (mx_dom m) n), (rx_match re_match (mx_re m) n); reflexivity.
   - destruct (existsb (list_eqb x) (mx_re m)) eqn:D.
     + rewrite (rx_match_dup x (mx_re m) n D) at 1.
-      destruct (entry_matches re_match n (ERegexp x)), (fm_match (mx_full m) n), (dm_match (mx_dom m) n), (rx_match re_match (mx_re m) n); reflexivity.
+      destruct (dm_entry_matches re_match n (ERegexp x)), (fm_match (mx_full m) n), (dm_match (mx_dom m) n), (rx_match re_match (mx_re m) n); reflexivity.
     + rewrite rx_match_cons.
-      destruct (entry_matches re_match n (ERegexp x)), (fm_match (mx_full m) n), (dm_match (mx_dom m) n), (rx_match re_match (mx_re m) n); reflexivity.
+      destruct (dm_entry_matches re_match n (ERegexp x)), (fm_match (mx_full m) n), (dm_match (mx_dom m) n), (rx_match re_match (mx_re m) n); reflexivity.
 Qed.
 
 Definition mix_add_entries (es : list entry) (m : mix) : mix := fold_left (fun m e => mix_add_entry e m) es m.
@@ -363,7 +363,7 @@ Theorem mix_match_spec es n : Forall wf_entry es ->
   mix_match re_match (mix_add_entries es mix_empty) n = spec_mix re_match es n.
 Proof. intros H. rewrite mix_fold_sem by assumption. now rewrite mix_empty_sem. Qed.
 
-Lemma entry_matches_iff n e : entry_matches re_match n e = true <->
+Lemma entry_matches_iff n e : dm_entry_matches re_match n e = true <->
   match e with
   | EFull d => n = d
   | EDomain ls => ls = [] \/ exists nl, scan n = Ok nl /\ label_suffix ls nl
